@@ -31,7 +31,7 @@ ASSUMPTIONS = ["frames are built by vp.ref.codec.ubx_frame (independent Fletcher
 def floors(tier):
     return {"accepted": 2000, "kind=exact": 300, "kind=short": 200, "kind=long": 200,
             "kind=empty": 200, "kind=random": 200, "id=undoc-id": 100, "id=unknown-class": 100,
-            "mode=SETPOLL": 300, "len>=256": 10, "after-checksum-twin": 300, "cfgval-items": 60, "long-zero-state": 40}
+            "mode=SETPOLL": 300, "len>=256": 10, "after-checksum-twin": 300, "cfgval-items": 60, "long-zero-state": 40, "size~2^k": 300}
 
 
 def plan(tier, seed):
@@ -105,6 +105,21 @@ def run_shard(spec, ctx, acc):
                         o = check(case)
                         o.classes = list(o.classes) + ["long-zero-state"]
                         core.handle(acc, o, case, known)
+        # payload sizes at and next to every power of two from 2^8 to 2^15
+        if spec["name"] in ("s4", "s5", "s6", "s7"):
+            import hashlib
+
+            k0 = int(spec["name"][1:]) - 4
+            for k in range(8 + k0, 16, 4):
+                for d in (-2, -1, 0, 1, 2):
+                    n = (1 << k) + d
+                    p = hashlib.shake_256(bytes([k, d & 0xFF])).digest(n)
+                    for cid in (b"\x04\x02", b"\x77\x01", b"\x0a\x04"):
+                        for mode, val in ((0, 1), (0, 0), (3, 1)):
+                            case = dict(_mk(cid, p, mode, 1, "long", "defined"), validate=val)
+                            o = check(case)
+                            o.classes = list(o.classes) + ["size~2^k"]
+                            core.handle(acc, o, case, known)
         # undocumented IDs / unknown classes with arbitrary payloads
         odd = st.builds(
             lambda ck, p, mode, bf: _mk(ck[1], p, mode, bf, "random" if p else "empty", ck[0]),
